@@ -178,6 +178,18 @@ theorem C03_relief_progress_head (swr : Swr) (sc : Sched) (inp : Input)
     ∃ k, (cycle swr sc inp).scales.getLast? = some k ∧ (inp.probes.length : Int) < k :=
   relief_progress_head swr sc inp hsync hmp hmh hnn hen hne hnc hmax i s ex hs hch htr hnb hload
 
+/-- **C03 (relief reaches its goal)**: for the shard it works on, `alleviateShardProcessSeries` —
+    with any relief order, on any state in which the shard holds no settled target exceeding the
+    limit alone — ends with space requested, or with the settled load that is left on the shard (the
+    targets it does not hand over) at most the expected load.  The running total of the Go loop is
+    exactly that settled load (`apLoop_total`): a moved target was counted with its total series and
+    counts for nothing once it is in transfer. -/
+theorem C03_relief_reaches_goal (o : Opt) (exp : Int) (order : List Hash) (c : CS) (i : Nat) (s : SI)
+    (hs : c.shards[i]? = some s) (hnb : NB o c i) :
+    0 < (allevProcShard o exp order c i).2 ∨
+    ∃ s', (allevProcShard o exp order c i).1.shards[i]? = some s' ∧ loadProc s' ≤ exp :=
+  allevProcShard_goal o exp order c i s hs hnb
+
 /-- non-vacuity: shard 0 reports two settled targets of 60 series each (limit 100).  With an empty
     second shard one of them is moved; with a second shard that has no room a third shard is asked for -/
 def exOver (other : List (Hash × St)) (rt : Int) : Input :=
